@@ -14,9 +14,9 @@ func init() {
 	register(&Spec{
 		ID:          "C15",
 		Loads:       []LoadSpec{{Patterns: []string{"./invoices", "./channeldb"}}},
-		Explanation: "Decides that every place that produces a settle resolution is one of the tabled sites and sits below the complete list of acceptance conditions of its path (open invoice, matching payment address, declared total non-zero and not below the invoice value, every accepted HTLC of the set declaring that same total, set sum reaching the declared total, both expiry margins, not a hold invoice; the legacy and replay paths have their own lists), that the set sum is built only from the accepted set plus the new HTLC, that the AMP preimages are released only when every child hash matched, that a hold invoice is settled by RPC only from the accepted state, that invoice and HTLC states only move forward, that a replayed HTLC is answered from its stored state, that the amount paid is written only by the shared applier from HTLC amounts, that the registry's subscription maps are lock-protected and that both stores route updates through the shared appliers.",
+		Explanation: "Decides that every place that produces a settle resolution is one of the tabled sites and sits below the complete list of acceptance conditions of its path (open invoice, matching payment address, declared total non-zero and not below the invoice value, every accepted HTLC of the set declaring that same total, set sum reaching the declared total, both expiry margins, not a hold invoice; the legacy and replay paths have their own lists), that the set sum is built only from the accepted set plus the new HTLC, that the AMP preimages are released only when every child hash matched, that a hold invoice is settled by RPC only from the accepted state, that invoice and HTLC states only move forward, that a replayed HTLC is answered from its stored state, that the amount paid is written only by the shared applier from HTLC amounts, that the registry's subscription maps are lock-protected and that both stores route updates through the shared appliers. After the repairs of round 5 (c15_fix5.go): an AMP set with Settled HTLCs takes no further HTLC; the start-up collection of canceled invoices keeps, in the KV scan and in the SQL statement, the invoices that recorded HTLCs; cancelSingleHtlc signals an HTLC it finds Canceled whoever canceled it; every accept outcome that records an HTLC on an Accepted invoice re-registers the invoice with the expiry watcher; the SQL statements run for one HTLC select it by channel and index.",
 		NotDecided: []string{
-			"arithmetic of sums over arbitrary splits (only the operands and comparisons are decided)", "SQL statements of the native SQL store",
+			"arithmetic of sums over arbitrary splits (only the operands and comparisons are decided)", "SQL statements of the native SQL store other than DeleteCanceledInvoices and the per-HTLC statements (UpdateInvoiceHTLC, UpdateAMPSubInvoiceHTLCPreimage), whose WHERE clauses are read",
 			"correctness of the AMP share reconstruction itself",
 		},
 		Assumptions: commonAssumptions,
